@@ -23,12 +23,14 @@ type (
 	yieldFn func(site string)
 	noteFn  func(site string, v any)
 	orderFn func(site string, keys []string)
+	pickFn  func(site string, n int) int
 )
 
 var (
 	yieldHook atomic.Pointer[yieldFn] //nolint:gochecknoglobals
 	noteHook  atomic.Pointer[noteFn]  //nolint:gochecknoglobals
 	orderHook atomic.Pointer[orderFn] //nolint:gochecknoglobals
+	pickHook  atomic.Pointer[pickFn]  //nolint:gochecknoglobals
 )
 
 // SetYield installs (or, with nil, removes) the scheduler callback.
@@ -92,4 +94,28 @@ func Keys(site string, m map[string]struct{}) []string {
 	}
 
 	return out
+}
+
+// On reports whether the hooks are compiled in.
+const On = true
+
+// SetPick installs (or, with nil, removes) the callback that chooses among ready alternatives.
+func SetPick(f func(site string, n int) int) {
+	if f == nil {
+		pickHook.Store(nil)
+
+		return
+	}
+	fn := pickFn(f)
+	pickHook.Store(&fn)
+}
+
+// Pick lets the deterministic simulator choose among n alternatives that are ready at the same time
+// (the runtime would choose at random); -1 means "no preference".
+func Pick(site string, n int) int {
+	if f := pickHook.Load(); f != nil {
+		return (*f)(site, n)
+	}
+
+	return -1
 }
